@@ -10,6 +10,8 @@ from rustparse import TranslateError
 GENERATORS = {
     'vehicle': ('gen_vehicle', ['VehicleTab.v']),
     'consts': ('gen_consts', ['NetConsts.v']),
+    'track': ('gen_track', ['TrackTab.v']),
+    'packets': ('gen_packets', ['Packets.v']),
 }
 
 def write_if_changed(path, text):
